@@ -38,6 +38,7 @@ type Hook struct {
 	Assumes  []Clause
 	Sets     []GhostSet
 	Pos      string
+	CallInv  []Clause // invariant maintained by every call of the closure passed to a `repeats` callee
 }
 
 type GhostSet struct {
@@ -72,6 +73,9 @@ type Contract struct {
 	Dyn      map[string][]string // param name -> possible dynamic types (closed world for interface params)
 	Uses     []LemmaUse
 	WritesVia []WritesVia
+	CallsOnce string   // name of a func-typed parameter that the (assumed) callee calls exactly once, synchronously
+	Repeats   string   // name of a func-typed parameter that the (assumed) callee calls any number of times
+	RepeatReq []Clause // what the callee guarantees about the arguments of each such call ($a0, $a1, ...)
 }
 
 // WritesVia: heap arrays whose name starts with Prefix may only be written inside the listed functions.
@@ -392,6 +396,28 @@ func ParseContracts(P *Program) (*Contracts, error) {
 				} else {
 					cur.Trust = append(cur.Trust, rest)
 				}
+			case "callsonce":
+				cur.CallsOnce = strings.TrimSpace(rest)
+			case "repeats":
+				// repeats <param> with <expr over $a0..>
+				parts := strings.SplitN(rest, " with ", 2)
+				cur.Repeats = strings.TrimSpace(parts[0])
+				if len(parts) == 2 {
+					c, err := parseClause(parts[1], pos)
+					if err != nil {
+						return nil, err
+					}
+					cur.RepeatReq = append(cur.RepeatReq, c)
+				}
+			case "callinv":
+				if curHook == nil {
+					return nil, fmt.Errorf("%s: callinv outside hook", pos)
+				}
+				c, err := parseClause(rest, pos)
+				if err != nil {
+					return nil, err
+				}
+				curHook.CallInv = append(curHook.CallInv, c)
 			case "writesvia":
 				f := strings.Fields(rest)
 				if len(f) < 2 {
